@@ -439,3 +439,28 @@ def decode_struct(members, stream):
         if name is not None and name != "":
             out[name] = v
     return out
+
+
+# ---------------------------------------------------------------------------------------------- Logix strings
+def encode_fixed_string(capacity, text):
+    """Logix string of a given capacity: LEN as DINT (UDINT on the wire), DATA = capacity bytes: the text truncated to
+    the capacity, zero padded (1756-PM020 'String data type')"""
+    if not isinstance(text, str):
+        raise DataError("not a string")
+    t = text[:capacity]
+    try:
+        data = t.encode("iso-8859-1")
+    except UnicodeEncodeError:
+        raise DataError("character not representable")
+    return le_uint(len(t), 4) + data + bytes(capacity - len(t))
+
+
+def decode_fixed_string(capacity, buffer):
+    if not isinstance(buffer, (bytes, BytesIO)):
+        raise DataError("not a buffer")
+    stream = stream_of(buffer)
+    n = from_le(read_exact(stream, 4), 4)
+    data = stream.read(capacity)
+    if len(data) < capacity:
+        raise DataError("truncated string data")
+    return data[:n].decode("iso-8859-1")
